@@ -421,3 +421,162 @@ func EvalRho(ev *oprf.Evaluation) string { return "" }
 //
 //@ spec opaque
 func EntropyFailed() bool { return false }
+
+// ===========================================================================
+// Blind RSA (RFC 9474, circl/blindsign/blindrsa) and RSASSA-PSS verification. Keys are immutable
+// objects. No unforgeability or other hardness statement is assumed.
+
+// RSAModLen: size in bytes of the modulus of the key.
+//
+//@ spec opaque
+func RSAModLen(pk *rsa.PublicKey) int { return (pk.N.BitLen() + 7) / 8 }
+
+//@ lemma auto trusted
+//@ ensures RSAModLen(pk) >= 0
+func axRSAModLen(pk *rsa.PublicKey) {}
+
+// BRSABlinded(pk, msg, r, salt): the blinded message; BRSASign(sk, blinded): the blind signature;
+// BRSAFinal(pk, r, blindSig): the unblinded signature; PSSVerify(pk, digest, sig): RSASSA-PSS-SHA384
+// (salt length 48) verification of sig over the SHA-384 digest.
+//
+//@ spec opaque
+func BRSABlinded(pk *rsa.PublicKey, msg, r, salt string) string { return "" }
+
+//@ spec opaque
+func BRSASign(sk *rsa.PrivateKey, blinded string) string { return "" }
+
+//@ spec opaque
+func BRSAFinal(pk *rsa.PublicKey, r, blindSig string) string { return "" }
+
+//@ spec opaque
+func PSSVerify(pk *rsa.PublicKey, digest, sig string) bool { return false }
+
+// PSSSign(sk, msg, salt): the (deterministic given the salt) RSASSA-PSS signature of msg.
+//
+//@ spec opaque
+func PSSSign(sk *rsa.PrivateKey, msg, salt string) string { return "" }
+
+// BlindOK: r is a usable blinding factor for pk (0 < r < N, invertible) and msg/salt encode.
+//
+//@ spec opaque
+func BlindOK(pk *rsa.PublicKey, r string) bool { return false }
+
+//@ spec
+func RSAPub(sk *rsa.PrivateKey) *rsa.PublicKey { return &sk.PublicKey }
+
+// Assumed facts: sizes; correctness of blind signing (the blind cancels and the result is the PSS
+// signature of the message under the salt, which verifies).
+//
+//@ lemma auto trusted
+//@ ensures len(BRSABlinded(pk, msg, r, salt)) == RSAModLen(pk)
+func axBRSABlindedLen(pk *rsa.PublicKey, msg, r, salt string) {}
+
+//@ lemma auto trusted
+//@ ensures len(blinded) == RSAModLen(RSAPub(sk)) ==> len(BRSASign(sk, blinded)) == RSAModLen(RSAPub(sk))
+func axBRSASignLen(sk *rsa.PrivateKey, blinded string) {}
+
+//@ lemma auto trusted
+//@ ensures len(bs) == RSAModLen(pk) ==> len(BRSAFinal(pk, r, bs)) == RSAModLen(pk)
+func axBRSAFinalLen(pk *rsa.PublicKey, r, bs string) {}
+
+//@ lemma auto trusted
+//@ ensures BlindOK(RSAPub(sk), r) ==> BRSAFinal(RSAPub(sk), r, BRSASign(sk, BRSABlinded(RSAPub(sk), msg, r, salt))) == PSSSign(sk, msg, salt)
+func axBRSACorrect(sk *rsa.PrivateKey, msg, r, salt string) {}
+
+//@ lemma auto trusted
+//@ ensures PSSVerify(RSAPub(sk), SHA384(msg), PSSSign(sk, msg, salt)) && len(PSSSign(sk, msg, salt)) == RSAModLen(RSAPub(sk))
+func axPSSSignVerifies(sk *rsa.PrivateKey, msg, salt string) {}
+
+// Verifier (immutable value behind an interface).
+
+//@ spec opaque
+func BVKey(v blindrsa.Verifier) *rsa.PublicKey { return nil }
+
+//@ ext github.com/cloudflare/circl/blindsign/blindrsa.NewVerifier func(pk *rsa.PublicKey, h crypto.Hash) (v blindrsa.Verifier)
+//@ ensures v != nil && BVKey(v) == pk
+//@ assigns none
+//@ end
+
+// VerifierState (immutable value).
+
+//@ spec opaque
+func VStKey(s blindrsa.VerifierState) *rsa.PublicKey { return nil }
+
+//@ spec opaque
+func VStMsg(s blindrsa.VerifierState) string { return "" }
+
+//@ spec opaque
+func VStR(s blindrsa.VerifierState) string { return "" }
+
+//@ spec opaque
+func VStSalt(s blindrsa.VerifierState) string { return "" }
+
+// Blind draws the salt (hash size) and the blinding factor from the reader.
+//
+//@ ext (github.com/cloudflare/circl/blindsign/blindrsa.Verifier).Blind func(v blindrsa.Verifier, random io.Reader, message []byte) (blinded []byte, st blindrsa.VerifierState, err error)
+//@ requires v != nil && BVKey(v) != nil
+//@ ensures err == nil ==> string(blinded) == BRSABlinded(BVKey(v), string(message), VStR(st), VStSalt(st)) && fresh(blinded)
+//@ ensures err == nil ==> VStKey(st) == BVKey(v) && VStMsg(st) == string(message) && BlindOK(BVKey(v), VStR(st))
+//@ ensures err != nil ==> EntropyFailed() || BRSAEncodeFails(BVKey(v), string(message))
+//@ assigns none
+//@ end
+
+// BRSAEncodeFails: EMSA-PSS encoding of the message is impossible for this key size (modulus too small).
+//
+//@ spec opaque
+func BRSAEncodeFails(pk *rsa.PublicKey, msg string) bool { return false }
+
+//@ ext (github.com/cloudflare/circl/blindsign/blindrsa.Verifier).FixedBlind func(v blindrsa.Verifier, message []byte, blind []byte, salt []byte) (blinded []byte, st blindrsa.VerifierState, err error)
+//@ requires v != nil && BVKey(v) != nil
+//@ ensures err == nil ==> string(blinded) == BRSABlinded(BVKey(v), string(message), string(blind), string(salt)) && fresh(blinded)
+//@ ensures err == nil ==> VStKey(st) == BVKey(v) && VStMsg(st) == string(message) && VStR(st) == string(blind) && VStSalt(st) == string(salt) && BlindOK(BVKey(v), string(blind))
+//@ ensures err != nil ==> !BlindOK(BVKey(v), string(blind)) || BRSAEncodeFails(BVKey(v), string(message))
+//@ assigns none
+//@ end
+
+// Finalize checks the size, unblinds and VERIFIES the signature before returning it.
+//
+//@ ext (github.com/cloudflare/circl/blindsign/blindrsa.VerifierState).Finalize func(st blindrsa.VerifierState, data []byte) (sig []byte, err error)
+//@ requires VStKey(st) != nil
+//@ ensures (err == nil) == (len(data) == RSAModLen(VStKey(st)) && PSSVerify(VStKey(st), SHA384(VStMsg(st)), BRSAFinal(VStKey(st), VStR(st), string(data))))
+//@ ensures err == nil ==> string(sig) == BRSAFinal(VStKey(st), VStR(st), string(data)) && fresh(sig)
+//@ assigns none
+//@ end
+
+//@ spec opaque
+func SignerKey(s blindrsa.Signer) *rsa.PrivateKey { return nil }
+
+//@ ext github.com/cloudflare/circl/blindsign/blindrsa.NewSigner func(sk *rsa.PrivateKey) (s blindrsa.Signer)
+//@ ensures SignerKey(s) == sk
+//@ assigns none
+//@ pure
+//@ end
+
+// BlindSign: the length must equal the modulus size and the value must not exceed the modulus.
+//
+//@ spec opaque
+func BRSAInRange(sk *rsa.PrivateKey, data string) bool { return false }
+
+//@ lemma auto trusted
+//@ ensures BRSAInRange(sk, BRSABlinded(RSAPub(sk), msg, r, salt))
+func axBlindedInRange(sk *rsa.PrivateKey, msg, r, salt string) {}
+
+//@ ext (github.com/cloudflare/circl/blindsign/blindrsa.Signer).BlindSign func(s blindrsa.Signer, data []byte) (sig []byte, err error)
+//@ requires SignerKey(s) != nil
+//@ ensures err == nil ==> len(data) == RSAModLen(RSAPub(SignerKey(s))) && string(sig) == BRSASign(SignerKey(s), string(data)) && fresh(sig)
+//@ ensures len(data) == RSAModLen(RSAPub(SignerKey(s))) && BRSAInRange(SignerKey(s), string(data)) && !EntropyFailed() ==> err == nil
+//@ ensures err != nil ==> sig == nil
+//@ assigns none
+//@ end
+
+//@ ext crypto/rsa.VerifyPSS func(pub *rsa.PublicKey, h crypto.Hash, digest []byte, sig []byte, opts *rsa.PSSOptions) (err error)
+//@ requires pub != nil
+//@ ensures h == crypto.SHA384 && opts != nil && opts.SaltLength == 48 ==> (err == nil) == PSSVerify(pub, string(digest), string(sig))
+//@ assigns none
+//@ end
+
+// rsa.VerifyPSS rejects signatures whose length differs from the modulus size.
+//
+//@ lemma auto trusted
+//@ ensures PSSVerify(pk, digest, sig) ==> len(sig) == RSAModLen(pk)
+func axPSSVerifyLen(pk *rsa.PublicKey, digest, sig string) {}
